@@ -108,13 +108,13 @@ class C14(Prop):
         ("lib/python/pyflyby/_util.py", "Aspect.unadvise"),
     ]
     parallel = False             # the shells live in the lab's own processes
-    quick_cases = 220
+    quick_cases = 350
     thorough_cases = 2600
     quick_deadline_s = 70
     thorough_deadline_s = 780
     rule = ("op sequences of length <= 6 over {enable, enable_again(=enable(even_if_previously_errored=True) via the shell), "
             "disable, load_ext, unload_ext, reload_ext, run_cell, complete} on a fresh real IPython 9 shell per sequence "
-            "(forked from a pristine zygote): all sequences of length <= 2 and a sample of length 3-6 in quick, all of "
+            "(forked from a pristine zygote): all sequences of length <= 3 and a sample of length 3-6 in quick, all of "
             "length <= 4 in thorough; plus the use_jedi=True and embedded-shell configurations; a case is non-trivial when "
             "the importer gets enabled at least once; distinct by (configuration, op sequence)")
     trusted_base = [
@@ -191,7 +191,7 @@ class C14(Prop):
 
     def exhaustive_cases(self, tier, rng):
         out = []
-        maxlen = 4 if tier == "thorough" else 2
+        maxlen = 4 if tier == "thorough" else 3
         for n in range(1, maxlen + 1):
             for ops in itertools.product(OPS, repeat=n):
                 out.append(dict(config="terminal", ops=list(ops)))
@@ -465,7 +465,21 @@ class C14(Prop):
 
     @staticmethod
     def fam_embedded(case, failure):
-        return case.get("config") == "embedded"
+        """embedded shell: every call reaches a new importer, so nothing is ever undone and the two hook lists grow;
+        joinpoints still carry exactly one wrapper (once=True) and no call raises"""
+        if case.get("config") != "embedded":
+            return False
+        w = failure.get("what", "")
+        if w in ("a joinpoint carries more than one pyflyby advice", "an exception escaped a public entry point",
+                 "running a cell / completing changed hook attributes",
+                 "enabled, but a cell reading a known name was not auto-imported",
+                 "enabled, but completion does not offer the known name"):
+            return False
+        if w == "a hook list holds more than one pyflyby entry":
+            return failure.get("key") in ("itm.cleanup_transforms", "ip.traits.ast_transformers")
+        if w == "an op that does not change the enabled state changed patched attributes":
+            return set(failure.get("keys", [])) <= {"itm.cleanup_transforms", "ip.traits.ast_transformers"}
+        return True
 
     families = {"D3_reset_hook_leak": fam_d3.__func__, "embedded_new_importer_per_call": fam_embedded.__func__}
 
